@@ -189,9 +189,14 @@ func c11SignIfJWT(s string) string {
 		return s
 	}
 
-	parts := strings.SplitN(s, ":", 3)
-	if len(parts) != 3 {
+	parts := strings.SplitN(s, ":", 4)
+	if len(parts) < 3 {
 		return s
+	}
+
+	issuer := "issuer-1"
+	if len(parts) == 4 {
+		issuer = parts[3]
 	}
 
 	signer, err := jose.NewSigner(jose.SigningKey{Algorithm: jose.ES256, Key: c11PrivKey},
@@ -201,7 +206,7 @@ func c11SignIfJWT(s string) string {
 	}
 
 	payload, _ := json.Marshal(map[string]any{
-		"iss": "issuer-1", "sub": parts[2], "exp": time.Now().Add(time.Hour).Unix(), "scp": []string{"s1"},
+		"iss": issuer, "sub": parts[2], "exp": time.Now().Add(time.Hour).Unix(), "scp": []string{"s1"},
 	})
 
 	jws, err := signer.Sign(payload)
